@@ -25,7 +25,9 @@ RULE = (
     "day 1901-01-01..2099-12-31, each round-tripped through datetimeToJulianDate/julianDateToDatetime and compared "
     "with an integer-arithmetic reference; scenario offsets round-tripped through JulianDate; durations: every "
     "(start instant, step, D, call split) of the announced lattice executed on a real truth-only Scenario via "
-    "getTargetJulianDate+propagateTo with stepForward calls counted and Epoch/TruthEphemeris rows audited. "
+    "getTargetJulianDate+propagateTo with stepForward calls counted and Epoch/TruthEphemeris rows audited; D includes "
+    "durations that are NOT a whole number of seconds (k*step - f and k*step + f for fractions f on both sides of one "
+    "half, given in seconds to propagateTo and in decimal hours to runResonaate): exactly floor(D/step) steps. "
     "non-trivial = second-of-minute != 0 (conversions), offset not a multiple of 60 s, or D not a multiple of the "
     "step / start second != 0 / split run (durations); distinct by construction (lattice points)."
 )
@@ -99,11 +101,64 @@ def _dur_lattice(tier, seed):
     return cases
 
 
+# durations with a fractional second (decimal strings, exact): k*step - f has floor(D/step) = k-1 although D rounded to
+# the nearest / next whole second is a multiple of the step (f < 0.5, = 0.5, > 0.5, one millisecond); k*step + f has
+# floor(D/step) = k whichever way the fraction is treated (control on the other side of the multiple)
+FRAC_BELOW = ["0.36", "0.5", "0.72", "0.001"]
+FRAC_ABOVE = ["0.4", "0.64"]
+FRAC_STEPS_Q = [2, 7, 30, 60, 300, 450, 3600]
+FRAC_STARTS_Q = [datetime(2021, 3, 30, 16, 0, 7), datetime(2019, 12, 31, 23, 59, 29), datetime(2020, 2, 29, 6, 30, 59)]
+
+
+def _frac_dur_lattice(tier, seed):
+    from fractions import Fraction  # noqa: PLC0415
+
+    starts = list(FRAC_STARTS_Q)
+    steps = list(FRAC_STEPS_Q)
+    ks = [2, 3, 5]
+    if tier == "thorough":
+        base = datetime(2018, 6, 15, 7, 30, 0) + timedelta(days=seed % 1000)
+        starts += [base + timedelta(seconds=s) for s in (0, 31, 59)] + [datetime(2016, 12, 31, 23, 59, 58)]
+        steps += [5, 45, 360, 900]
+        ks += [1, 4, 12]
+    cases = []
+    for i, st in enumerate(starts):
+        for j, step in enumerate(steps):
+            for k in ks:
+                # quick: every start instant for k = 2, one start instant (rotating with step and k) for the other k
+                if tier != "thorough" and k != ks[0] and (j + k) % len(starts) != i:
+                    continue
+                ds = [_dec(k * step, f, -1) for f in FRAC_BELOW] + [_dec(k * step, f, +1) for f in FRAC_ABOVE]
+                if step >= 450 and k == ks[0] and (tier == "thorough" or j % len(starts) == i):
+                    ds.append(_dec(86400 + step, "0.36", -1))  # the days part of the timedelta AND a fraction
+                for d in ds:
+                    n = int(Fraction(d) // step)
+                    if n < 1 or n > 400:
+                        continue
+                    cases.append((st, step, d, "split" if (n >= 2 and (i + k + len(cases)) % 3 == 0) else "single"))
+    return cases
+
+
+def _dec(whole, frac, sign):
+    """Exact decimal string of whole + sign*frac (seconds), frac given with at most 3 decimals."""
+    from fractions import Fraction  # noqa: PLC0415
+
+    v = Fraction(whole) + sign * Fraction(frac)
+    ms = v * 1000
+    assert ms.denominator == 1
+    return f"{int(ms) // 1000}.{int(ms) % 1000:03d}"
+
+
 # runs through the user-facing entry point ``resonaate.runResonaate(init_file, sim_time_hours=h)`` (what the
 # ``resonaate -t <hours>`` command calls): hour values as decimal strings (the exact duration is Fraction(h)*3600 s,
 # mostly NOT representable as a binary float), each against several steps; includes exact multiples of the step
 ENTRY_HOURS_Q = ["0.1", "0.3", "0.7", "1.1", "2.3", "4.1", "0.35", "1", "0.05"]
 ENTRY_STEPS_Q = [60, 360, 450]
+# hours whose duration has a fractional second: 0.0249 h = 89.64 s, 0.0999 h = 359.64 s, 0.1999 h = 719.64 s, 0.2499 h = 899.64 s,
+# 0.4999 h = 1799.64 s, 1.2499 h = 4499.64 s (fraction > 1/2 just below a multiple of the steps); 0.0998 h = 359.28 s,
+# 0.2498 h = 899.28 s (fraction < 1/2 just below); 0.2501 h = 900.36 s, 0.1002 h = 360.72 s (just above a multiple)
+ENTRY_FRAC_HOURS_Q = ["0.0249", "0.0999", "0.1999", "0.2499", "0.4999", "1.2499", "0.0998", "0.2498", "0.2501", "0.1002"]
+ENTRY_FRAC_STEPS_Q = [30, 60, 360, 450]
 ENTRY_STARTS = [datetime(2021, 3, 30, 16, 0, 7), datetime(2019, 12, 31, 23, 59, 29)]
 
 
@@ -123,6 +178,20 @@ def _entry_lattice(tier, seed):
                 continue
             # output step = physics step, or 3 x physics (epochs of the steps between two saves are written with the save)
             cases.append((ENTRY_STARTS[(i + seed) % len(ENTRY_STARTS)], step, h, 1 if (i + len(cases)) % 2 == 0 else 3))
+    fhours = list(ENTRY_FRAC_HOURS_Q)
+    fsteps = list(ENTRY_FRAC_STEPS_Q)
+    if tier == "thorough":
+        fhours += ["0.7499", "2.4999", "0.4998", "24.0999", "0.5001", "0.0251"]
+        fsteps += [45, 300, 900]
+    for i, h in enumerate(fhours):
+        for step in fsteps:
+            from fractions import Fraction  # noqa: PLC0415
+
+            dur = Fraction(h) * 3600
+            assert dur.denominator != 1
+            if dur // step < 1 or dur // step > 420:
+                continue
+            cases.append((ENTRY_STARTS[(i + seed) % len(ENTRY_STARTS)], step, h, 1 if (i + len(cases)) % 2 == 0 else 3))
     return cases
 
 
@@ -141,6 +210,8 @@ def items(tier, seed):
     out.append(("calendar_fields", seed))
     for chunk in fw.chunked(_dur_lattice(tier, seed), 6):
         out.append(("duration", [(st.isoformat(), step, d, mode) for st, step, d, mode in chunk]))
+    for chunk in fw.chunked(_frac_dur_lattice(tier, seed), 8):
+        out.append(("duration", [(st.isoformat(), step, d, mode) for st, step, d, mode in chunk]))
     for chunk in fw.chunked(_entry_lattice(tier, seed), 4):
         out.append(("entry", [(st.isoformat(), step, h, m) for st, step, h, m in chunk]))
     # the configured instants are UTC whatever the HOST's time zone is (POSIX TZ strings: no tzdata needed)
@@ -157,7 +228,12 @@ def bounds(tier, seed):
         "all_days": "1901-01-01..2099-12-31 at 00:00:00, 11:59:59, 12:00:00, 23:59:59",
         "duration_cases": len(_dur_lattice(tier, seed)),
         "duration_steps": sorted({c[1] for c in _dur_lattice(tier, seed)}),
+        "fractional_duration_cases": len(_frac_dur_lattice(tier, seed)),
+        "fractional_duration_steps": sorted({c[1] for c in _frac_dur_lattice(tier, seed)}),
+        "fractional_duration_D": "k*step - f, f in %s; k*step + f, f in %s; 1 day + step - 0.36 (step >= 300)" % (FRAC_BELOW, FRAC_ABOVE),
+        "fractional_duration_starts": sorted({c[0].isoformat() for c in _frac_dur_lattice(tier, seed)}),
         "entry_point_cases": len(_entry_lattice(tier, seed)),
+        "entry_point_steps": sorted({c[1] for c in _entry_lattice(tier, seed)}),
         "host_time_zones": HOST_ZONES,
         "entry_point_hours": sorted({c[2] for c in _entry_lattice(tier, seed)}, key=float),
     }
@@ -313,9 +389,16 @@ def _run_duration(res, item):
     from resonaate.data.epoch import Epoch  # noqa: PLC0415
     from sqlalchemy.orm import Query  # noqa: PLC0415
 
+    from fractions import Fraction  # noqa: PLC0415
+
     for iso, step, dur, mode in item[1]:
         st = datetime.fromisoformat(iso)
-        expected_steps = dur // step
+        # dur: whole seconds (int) or an exact decimal string with a fractional second (at most microseconds)
+        dur_exact = Fraction(dur)
+        frac_dur = dur_exact.denominator != 1
+        dur_td = timedelta(seconds=int(dur_exact // 1), microseconds=int((dur_exact % 1) * 10**6))
+        assert Fraction(dur_td.days * 86400 + dur_td.seconds) + Fraction(dur_td.microseconds, 10**6) == dur_exact
+        expected_steps = int(dur_exact // step)
         span_steps = expected_steps + 2
         cfg = scen.config(
             st,
@@ -335,24 +418,26 @@ def _run_duration(res, item):
             return orig()
 
         sc.stepForward = counted
-        case = {"start": iso, "start_second": st.second, "step": step, "D": dur, "mode": mode}
+        case = {"start": iso, "start_second": st.second, "step": step, "D": dur, "mode": mode,
+                "D_fraction": str(dur_exact % 1)}
         err = None
         try:
             if mode == "single":
-                sc.propagateTo(getTargetJulianDate(sc.clock.julian_date_start, timedelta(seconds=dur)))
+                sc.propagateTo(getTargetJulianDate(sc.clock.julian_date_start, dur_td))
             else:
                 first = (expected_steps // 2) * step
                 sc.propagateTo(getTargetJulianDate(sc.clock.julian_date_start, timedelta(seconds=first)))
-                sc.propagateTo(getTargetJulianDate(sc.clock.julian_date_start, timedelta(seconds=dur)))
+                sc.propagateTo(getTargetJulianDate(sc.clock.julian_date_start, dur_td))
         except Exception as exc:  # noqa: BLE001
             err = f"{type(exc).__name__}: {exc}"
-        nontriv = st.second != 0 or dur % step != 0 or mode == "split"
+        nontriv = st.second != 0 or dur_exact % step != 0 or mode == "split"
         res.case(
             "duration/steps",
             case,
             err is None and calls["n"] == expected_steps and float(sc.clock.time) == expected_steps * step,
             nontrivial=nontriv,
-            signature=f"C05/duration/steps/{'short' if calls['n'] < expected_steps else 'long' if calls['n'] > expected_steps else 'error'}",
+            signature=f"C05/duration/steps/{'short' if calls['n'] < expected_steps else 'long' if calls['n'] > expected_steps else 'error'}"
+            + ("/fractional_D" if frac_dur else ""),
             observed={"stepForward_calls": calls["n"], "clock_time": float(sc.clock.time), "error": err},
             expected={"steps": expected_steps},
             outcome=f"steps_minus_expected={calls['n'] - expected_steps}",
